@@ -1,15 +1,15 @@
-_c10_bare = lambda name, cfg, dq, dt, nconn=1: dict(name=name, defs=["CFG=" + cfg, "NCONN=%d" % nconn, "WORLD_LL=0", "DEPTH_Q=%d" % dq, "DEPTH_T=%d" % dt])
+_c10_bare = lambda name, cfg, dq, dt, nconn=1, t=False: dict(name=name, thorough_only=t, defs=["CFG=" + cfg, "NCONN=%d" % nconn, "WORLD_LL=0", "DEPTH_Q=%d" % dq, "DEPTH_T=%d" % dt])
 _c10_ll   = lambda name, cfg, dq, dt: dict(name=name, defs=["CFG=" + cfg, "NCONN=1", "WORLD_LL=1", "DEPTH_Q=%d" % dq, "DEPTH_T=%d" % dt, "LLW_MAX_PDU=24", "LLW_MAX_TX_LOG=6"])
 reg("C10",
     level="model_checking",
     technique="explicit-state BFS over the real server<> + channel_data_t connection(s) with a notification callback that is a literal copy of link_layer::queue_lcap_notification (world 'bare'), and over the real link_layer<server, llw::radio> with a reference central (world 'll'); a reference model that knows nothing about queue indices or priorities (pending request set per connection, CCCD bits, current values, reference value handles from the GATT layout) judges every emitted PDU; from every reachable state of the bare world a drain with a generously confirming client checks that every pending, subscribed request is delivered exactly once",
     rule="state = byte image of server/link layer + connection(s) + bound values + reference model; transition = one of: CCCD write (00/01/02/03), notify(value_k), notify<uuid_k>(), indicate(value_k), indicate<uuid_k>(), transmit opportunity (l2cap_output / 2N+2 connection events), Handle Value Confirmation, value change; classes = (PDU kind, request path, single/coalesced request, CCCD value, value changed) and request/empty-output kinds",
-    bound="servers with 3/4/5 notify|indicate|both characteristics x {no priorities, service level, server+service level higher_outgoing_priority}; bare world, 1 connection: all event sequences up to depth 6 (N=3), 5 (N=4), 5 (N=5) quick and 8/7/6 thorough, drain from every reachable state; 2 connections (N=3, priorities): depth 5/6; link layer world (N=3, without and with priorities): depth 4/5 where every step that involves the radio is followed by 2N+2 connection events",
+    bound="(quick runs 7 of the 13 configurations: N=3 without/with service level priorities, N=4 and 2-connection N=3 and N=5 with priorities, both link layer worlds; thorough runs all) servers with 3/4/5 notify|indicate|both characteristics x {no priorities, service level, server+service level higher_outgoing_priority}; bare world, 1 connection: all event sequences up to depth 6 (N=3), 5 (N=4), 5 (N=5) quick and 8/7/6 thorough, drain from every reachable state; 2 connections (N=3, priorities): depth 5/6; link layer world (N=3, without and with priorities): depth 4/5 where every step that involves the radio is followed by 2N+2 connection events",
     units=[dict(src="harness/C10_notify_routing.cpp",
-                variants=[_c10_bare("b-n3_p0", "n3_p0", 6, 8), _c10_bare("b-n3_p1", "n3_p1", 6, 8), _c10_bare("b-n3_p2", "n3_p2", 6, 8),
-                          _c10_bare("b-n4_p0", "n4_p0", 5, 7), _c10_bare("b-n4_p1", "n4_p1", 5, 7), _c10_bare("b-n4_p2", "n4_p2", 5, 7),
-                          _c10_bare("b-n5_p0", "n5_p0", 5, 6), _c10_bare("b-n5_p1", "n5_p1", 5, 6), _c10_bare("b-n5_p2", "n5_p2", 5, 6),
-                          _c10_bare("b2-n3_p0", "n3_p0", 5, 6, 2), _c10_bare("b2-n3_p1", "n3_p1", 5, 6, 2)]),
+                variants=[_c10_bare("b-n3_p0", "n3_p0", 6, 8), _c10_bare("b-n3_p1", "n3_p1", 6, 8), _c10_bare("b-n3_p2", "n3_p2", 6, 8, t=True),
+                          _c10_bare("b-n4_p0", "n4_p0", 5, 7, t=True), _c10_bare("b-n4_p1", "n4_p1", 5, 7, t=True), _c10_bare("b-n4_p2", "n4_p2", 5, 7),
+                          _c10_bare("b-n5_p0", "n5_p0", 5, 6, t=True), _c10_bare("b-n5_p1", "n5_p1", 5, 6), _c10_bare("b-n5_p2", "n5_p2", 5, 6, t=True),
+                          _c10_bare("b2-n3_p0", "n3_p0", 5, 6, 2, t=True), _c10_bare("b2-n3_p1", "n3_p1", 5, 6, 2)]),
            dict(src="harness/C10_notify_routing.cpp", link_ll=True,
                 variants=[_c10_ll("ll-n3_p0", "n3_p0", 4, 5), _c10_ll("ll-n3_p1", "n3_p1", 4, 5)])],
     quick_deadline=120, thorough_deadline=900,
